@@ -137,7 +137,7 @@ theorem ps_raiseSig (st : St) (s : Int) : PStep st (raiseSig st s) := by
   · split
     · exact PStep.of_eq rfl rfl
     · split
-      · exact PStep.of_eq rfl rfl
+      · unfold sigRecord; split <;> first | exact PStep.of_eq rfl rfl | exact PStep.refl _
       · split
         · exact PStep.of_eq rfl rfl
         · exact PStep.refl st
@@ -225,11 +225,27 @@ theorem ps_ensureSigchld (st : St) : PStep st (ensureSigchld st) := by
   · exact (ps_watchSignal _ _ _ _).trans (PStep.of_eq rfl rfl)
 
 
+theorem ps_setNotify (st : St) (a : Nat) (n : Option Nat) : PStep st (setNotify st a n) := by
+  unfold setNotify
+  exact ps_setW st a { st.getW a with notify := n }
+
+theorem ps_linkNotified (r : St × Nat) (a : Nat) (flags : Nat) : PStep r.1 (linkNotified r a flags) := by
+  unfold linkNotified
+  exact ((ps_setNotify r.1 a (some r.2)).trans (ps_insertWatch _ _ _ _)).trans (ps_with_procs _ _)
+
+theorem ps_clearNotify (st : St) (a : Nat) : PStep st (clearNotify st a) := by
+  unfold clearNotify
+  split
+  · exact ps_setNotify st a none
+  · exact PStep.refl _
+
 theorem ps_linkProcess (st : St) (a : Nat) (pid : Int) (flags : Nat) : PStep st (linkProcess st a pid flags) := by
   unfold linkProcess
   simp only []
   split
-  · exact ((ps_waitpid _ _).trans (ps_setWstatus _ _ _)).trans (ps_watchLater _ _ _ _)
+  · split
+    · exact (((ps_waitpid _ _).trans (ps_setWstatus _ _ _)).trans (ps_watchLater _ _ _ _)).trans (ps_linkNotified _ _ _)
+    · exact ((ps_waitpid _ _).trans (ps_setWstatus _ _ _)).trans (ps_watchLater _ _ _ _)
   · exact ((ps_waitpid _ _).trans (ps_insertWatch _ _ _ _)).trans (ps_with_procs _ _)
 
 
@@ -281,8 +297,18 @@ theorem ps_cancelFound (st : St) (a : Nat) (w : Watch) (l : List Nat) : PStep st
   exact ((((ps_setListOf st _ _).trans (ps_cancelNotify _ a w)).trans (ps_cancelHook _ w.type w.evi)).trans (ps_free _ a)).trans
     (ps_cancelRest _ _)
 
-theorem ps_watchCancel (st : St) (a : Nat) : PStep st (watchCancel st a) := by
-  unfold watchCancel
+theorem ps_cancelDetached (st : St) (a : Nat) : PStep st (cancelDetached st a) := by
+  unfold cancelDetached
+  exact (ps_cancelNotify st a _).trans (ps_setW _ _ _)
+
+theorem ps_laterPre (st : St) (a : Nat) : PStep st (laterPre st a) := by
+  unfold laterPre
+  split
+  · exact (ps_setW _ _ _)
+  · exact PStep.refl _
+
+theorem ps_watchCancel0 (st : St) (a : Nat) : PStep st (watchCancel0 st a) := by
+  unfold watchCancel0
   split
   · exact PStep.refl st
   · split
@@ -292,9 +318,19 @@ theorem ps_watchCancel (st : St) (a : Nat) : PStep st (watchCancel st a) := by
       · split
         · exact (ps_fail st _)
         · split
-          · exact PStep.refl st
+          · split
+            · exact ps_cancelDetached st a
+            · exact PStep.refl st
           · exact ps_cancelFound st a _ _
 
+
+theorem ps_watchCancel (st : St) (a : Nat) : PStep st (watchCancel st a) := by
+  unfold watchCancel
+  split
+  · split
+    · exact (ps_watchCancel0 st a).trans (ps_watchCancel0 _ _)
+    · exact ps_watchCancel0 st a
+  · exact ps_watchCancel0 st a
 
 theorem ps_with_slots (st : St) (l : List SlotRec) : PStep st { st with slots := l } := PStep.of_eq rfl rfl
 
@@ -317,11 +353,13 @@ theorem ps_doRegister (st : St) (k : Int) (reg : St → St × Nat) (h : ∀ s, P
     · exact (h st).trans (ps_with_slots _ _)
 
 
+theorem ps_with_cancelReq (st : St) (l : List Int) : PStep st { st with cancelReq := l } := PStep.of_eq rfl rfl
+
 theorem ps_doCancel (st : St) (k : Int) : PStep st (doCancel st k) := by
   unfold doCancel
   split
   · exact (ps_emit _ _)
-  · exact ps_watchCancel _ _
+  · exact (ps_with_cancelReq _ _).trans (ps_watchCancel _ _)
 
 
 theorem ps_runAct (st : St) (act : Act) : PStep st (runAct st act) := by
@@ -492,7 +530,7 @@ theorem ps_processNotify (st : St) (a : Nat) : PStep st (processNotify st a) := 
   unfold processNotify
   split
   · exact (ps_fail _ _)
-  · exact ps_invokeWatch _ _ _ _
+  · exact (ps_clearNotify _ _).trans (ps_invokeWatch _ _ _ _)
 
 
 theorem ps_laterCb (st : St) (a : Nat) : PStep st (laterCb st a) := by
@@ -515,10 +553,12 @@ theorem ps_laterLoopT (l : List Nat) : ∀ st : St, PStep st (laterLoopT st l).1
     · split
       · exact (ps_fail _ _)
       · split
-        · exact ps_laterCb _ _
+        · exact (ps_free _ a).trans (ih _)
         · split
-          · exact (ps_laterCb _ _).trans (ps_fail _ _)
-          · exact ((ps_laterCb _ _).trans (ps_free _ a)).trans (ih _)
+          · exact ((ps_laterPre st a).trans (ps_laterCb _ a))
+          · split
+            · exact (((ps_laterPre st a).trans (ps_laterCb _ a))).trans (ps_fail _ _)
+            · exact ((((ps_laterPre st a).trans (ps_laterCb _ a))).trans (ps_free _ a)).trans (ih _)
 
 
 theorem ps_laterLoop (l : List Nat) (st : St) : PStep st (laterLoop st l) := ps_laterLoopT l st
@@ -768,7 +808,7 @@ theorem pfd_raiseSig (st : St) (s : Int) : (raiseSig st s).pfd = st.pfd ∧ (rai
   · split
     · exact ⟨rfl, rfl⟩
     · split
-      · exact ⟨rfl, rfl⟩
+      · unfold sigRecord; split <;> exact ⟨rfl, rfl⟩
       · split <;> exact ⟨rfl, rfl⟩
 
 theorem pfd_foldl_raiseSig (l : List Int) : ∀ st : St, (l.foldl raiseSig st).pfd = st.pfd ∧ (l.foldl raiseSig st).cfg = st.cfg := by
@@ -793,7 +833,10 @@ theorem pfd_ppoll (st : St) (t : Option Int) : (ppoll st t).1.pfd = (pollScan st
   · split
     · exact hr
     · split
-      · exact hr
+      · have hd : (deliverPending (pollRaise (pollScan st))).pfd = (pollRaise (pollScan st)).pfd ∧
+            (deliverPending (pollRaise (pollScan st))).cfg = (pollRaise (pollScan st)).cfg := by
+          unfold deliverPending; split <;> exact ⟨rfl, rfl⟩
+        exact ⟨hd.1.trans hr.1, hd.2.trans hr.2⟩
       · unfold pollTimeout
         split <;> exact hr
 
